@@ -71,7 +71,7 @@ def layout(nbig):
     return bins, segs, members
 
 
-def h_stats(ctx, nbig, stats_cfg, alpha=0.5, skip_low=False, smoothed=False):
+def h_stats(ctx, nbig, stats_cfg, alpha=0.5, skip_low=False, smoothed=False, filtered_segments=False):
     bins, segs, members = layout(nbig)
     if skip_low:
         # a null-coverage bin in front: it is dropped first, so row labels no longer equal positions
@@ -85,6 +85,11 @@ def h_stats(ctx, nbig, stats_cfg, alpha=0.5, skip_low=False, smoothed=False):
     wts = [[0.5, 1.0, 0.25, 0.75, 0.9, 0.6, 0.3][i % 7] for i in range(nb)]
     cna = make_cna({"chromosome": [b[0] for b in bins], "start": [b[1] for b in bins], "end": [b[2] for b in bins], "gene": ["g"] * nb, "log2": list(logs), "weight": wts})
     sega = make_cna({"chromosome": [s[0] for s in segs], "start": [s[1] for s in segs], "end": [s[2] for s in segs], "gene": ["-"] * len(segs), "log2": list(slog), "probes": [len(m) for m in members]})
+    if filtered_segments:
+        # the segment table is a row subset of a larger one: its row labels do not start at 0
+        lead = make_cna({"chromosome": ["chr0"], "start": [0], "end": [5], "gene": ["-"], "log2": [0.0], "probes": [0]})
+        lead.add(sega)
+        sega = lead[lead.chromosome != "chr0"]
     loc, spread, interval = stats_cfg
     stub = _StatsStub(ctx, segmetrics.stats)
     bivar_args = []
@@ -320,6 +325,38 @@ def h_bivar_outlier(ctx, n, side):
     ctx.cover("reached")
 
 
+def h_bintest_boundary(ctx):
+    """'returns exactly the bins whose adjusted p is BELOW alpha': alpha is set to an adjusted p that a
+    first run reported (the very same number, so the comparison is exact in the concrete replay too);
+    the bin carrying it must then not be returned."""
+    bins = [("chr1", 0, 10, "A"), ("chr1", 10, 20, "B"), ("chr1", 20, 30, "C")]
+    logs = [ctx.real(f"b{i}", -5, 5) for i in range(3)]
+    ctx.assume(And(*[Abs(l) >= 0.125 for l in logs]))
+    wts = [0.75, 0.5, 0.9375]
+    cna = make_cna({"chromosome": [b[0] for b in bins], "start": [b[1] for b in bins], "end": [b[2] for b in bins], "gene": [b[3] for b in bins], "log2": list(logs), "weight": wts})
+    sega = make_cna({"chromosome": ["chr1"], "start": [0], "end": [30], "gene": ["-"], "log2": [0.0]})
+    orig = bintest.norm
+    bintest.norm = _NormStub(orig)
+    try:
+        first = bintest.do_bintest(cna, sega, 0.9999, False)
+        ps = col(first, "p_bintest")
+        if not ps:
+            return
+        alpha = ps[ctx.choice("which", list(range(len(ps)))) if len(ps) > 1 else 0]
+        if not bool(And(alpha > 0, alpha < 1)):
+            return
+        second = bintest.do_bintest(cna, sega, alpha, False)
+    except Exception as exc:
+        claim_raised(ctx, "do_bintest", exc)
+        return
+    finally:
+        bintest.norm = orig
+    for r in second.data.itertuples(index=False):
+        ctx.claim(r.p_bintest < alpha, "a returned bin's adjusted p is strictly below alpha (a bin exactly at alpha is not a hit)")
+    ctx.claim(len(second) < len(first), "the bin whose adjusted p equals alpha is not returned")
+    ctx.cover("reached")
+
+
 ALL_LOC = ("mean", "median", "p_ttest")
 ALL_SPREAD = ("stdev", "mad", "mse", "iqr", "bivar", "sem")
 
@@ -337,6 +374,7 @@ HARNESSES = [
             {"nbig": 3, "stats_cfg": [["mean"], ["stdev"], ["ci", "pi"]], "skip_low": True},
             {"nbig": 2, "stats_cfg": [[], [], ["ci"]], "smoothed": True},
             {"nbig": 2, "stats_cfg": [list(ALL_LOC), list(ALL_SPREAD), ["pi", "ci"]]},
+            {"nbig": 2, "stats_cfg": [["mean", "median"], ["stdev", "mad"], ["pi"]], "filtered_segments": True},
             {"nbig": 4, "stats_cfg": [["mean", "median"], ["stdev", "mse", "sem"], ["pi"]], "tier": "thorough"},
             {"nbig": 3, "stats_cfg": [[], [], ["ci", "pi"]], "alpha": 0.25, "tier": "thorough"},
             {"nbig": 4, "stats_cfg": [[], ["mad", "iqr"], []], "tier": "thorough"},
@@ -347,5 +385,6 @@ HARNESSES = [
     ),
     Harness("bivar_outlier", h_bivar_outlier, [{"n": n, "side": sd} for n in (3, 4) for sd in ("low", "high")], covers=["reached"], wall_s=200, query_timeout_ms=60000),
     Harness("p_adjust_bh", h_bh, [{"n": 1}, {"n": 2}, {"n": 3}, {"n": 4, "tier": "thorough"}], covers=["ties", "capped at 1"], wall_s=240, thorough_wall_s=1500),
+    Harness("bintest_boundary", h_bintest_boundary, [{}], covers=["reached"], wall_s=300),
     Harness("bintest", h_bintest, [{"target_only": False}, {"target_only": True}, {"target_only": False, "two_chrom": True}, {"target_only": True, "anti_name": "Background"}], covers=["hit", "no hit"], wall_s=300, thorough_wall_s=1500),
 ]
